@@ -187,11 +187,13 @@ def _list_int_ops():
     return out
 
 
-SET_ARGS = [[], [0], [0, 3], [3, 4], [0, 0, 3, 3], [0, 1, 2], [1, 2, 3]]
+SET_ARGS = [[], [0], [0, 3], [0, 0, 3, 3], [1, 2, 3]]
+SET_ARGS_THOROUGH = SET_ARGS + [[3, 4], [0, 1, 2], [2, 2], [4, 3, 2, 1, 0]]
 
 
-def _set_ops():
+def _set_ops(tier):
     out = []
+    args = SET_ARGS_THOROUGH if tier == "thorough" else SET_ARGS
     for mask in range(8):
         init = [i for i in range(3) if mask >> i & 1]
         for x in (0, 1, 3):
@@ -200,7 +202,7 @@ def _set_ops():
         out.append((init, [3], "set-pop"))
         out.append((init, [4], "set-clear"))
         for t in range(5, 13):
-            for a in SET_ARGS:
+            for a in args:
                 out.append((init, [t, [0, a]], "set-bulk"))
                 out.append((init, [t, [1, a]], "set-bulk"))
             out.append((init, [t, [2]], "set-bulk-self"))
@@ -342,14 +344,14 @@ def gen_cases(rng, tier):
 
     grid = list(_slice_grid())
     if tier != "thorough":
-        grid = rng.sample(grid, 2600)
+        grid = rng.sample(grid, 1400)
     for init, op, fam in grid:
         add(0, init, op, fam)
     for init, op, fam in _boundary_slices():
         add(0, init, op, fam)
     for init, op, fam in _list_int_ops():
         add(0, init, op, fam)
-    for init, op, fam in _set_ops():
+    for init, op, fam in _set_ops(tier):
         add(1, init, op, fam)
     for init, op, fam in _dict_ops():
         add(2, init, op, fam)
@@ -436,10 +438,17 @@ def _key(k):
     return "k%d" % k
 
 
-def _mk_collection(kind, init, variant):
+def _mk_collection(kind, init, variant, lazy=False):
     A = _ENV["attributes"]
     o = _ENV["Owner"]()
     name = {0: "l", 1: "s", 2: "m" if variant else "m2"}[kind]
+    if not init and lazy:
+        # a never-loaded attribute: the first access creates the special "empty" collection, which
+        # the adapter installs into the owner's __dict__ at the first event (_reset_empty)
+        c = getattr(o, name)
+        adapter = _ENV["collections"].collection_adapter(c)
+        assert adapter.empty and name not in o.__dict__
+        return o, c
     adapter = A.init_state_collection(A.instance_state(o), A.instance_dict(o), name)
     c = getattr(o, name)
     assert _ENV["collections"].collection_adapter(c) is adapter and c._sa_adapter is adapter
@@ -590,8 +599,9 @@ def impl(case):
     if not _ENV:
         impl_setup()
     kind, init, ops = case["in"]
-    variant = zlib.crc32(json.dumps(case["in"]).encode()) & 1
-    o, c = _mk_collection(kind, init, variant)
+    h = zlib.crc32(json.dumps(case["in"]).encode())
+    variant = h & 1
+    o, c = _mk_collection(kind, init, variant, lazy=bool(h & 2))
     log = _ENV["log"]
     obs = []
     code_of = lambda e: e.n  # noqa: E731
